@@ -298,5 +298,13 @@ example : parseEventId (List.replicate 62 97) = .error .invalidStringLength := b
 example : parseEventId (List.replicate 62 97 ++ [122, 122]) = .error (.invalidChar 122 62) := by rfl
 example : parseGroupId [] = .ok [] := by rfl
 example : hexDecode [65, 98] = .ok [171] ∧ hexDecode [97, 66] = .ok [171] := ⟨rfl, rfl⟩
+/-- the hypotheses of `hex_round_trip`, `hex_case_insensitive`, `decodeToSlice_value`, `parse_*_value` are satisfiable -/
+example : isBytes [171, 0, 255] = true ∧ hexDecode (hexEnc [171, 0, 255]) = .ok [171, 0, 255] := ⟨rfl, rfl⟩
+example : parseEventId (List.replicate 32 [65, 98]).flatten = .ok (List.replicate 32 171) := by rfl
+example : parseSortOrder (some createdAtFirst) = .ok (some 0) ∧ parseSortOrder (some processedAtFirst) = .ok (some 1) := ⟨rfl, rfl⟩
+example : parseTags [[[112], []], [[]]] = .ok [[[112], []], [[]]] ∧ parseTags [[[112]], []] = .error () := ⟨rfl, rfl⟩
+example : welcomeStateFromStr [112, 101, 110, 100, 105, 110, 103] = some 0 ∧ welcomeStateFromStr [80, 101, 110, 100, 105, 110, 103] = none := ⟨rfl, rfl⟩
+example : relayVerdict [119, 115, 115, 58, 47, 47, 97, 46, 98] = .acc ∧ relayVerdict [104, 116, 116, 112, 58, 47, 47, 97, 46, 98] = .rej ∧
+    relayVerdict [119, 115, 115, 58, 47, 47, 91, 58, 58, 49, 93] = .unk := ⟨rfl, rfl, rfl⟩
 
 end MdkVerif.Props.C06Ffi
